@@ -195,7 +195,7 @@ fn generate_enum(
         /// This type can hold an arbitrary string. To build events with a custom type, convert it
         /// from a string with `::from()` / `.into()`. To check for events that are not available as a
         /// documented variant here, use its string representation, obtained through `.to_string()`.
-        #[derive(Clone, PartialEq, Eq, PartialOrd, Ord, Hash)]
+        #[derive(Clone, PartialEq, Eq, Hash)]
         #[cfg_attr(not(ruma_unstable_exhaustive_types), non_exhaustive)]
         pub enum #ident {
             #(
@@ -213,6 +213,22 @@ fn generate_enum(
                     #(#to_cow_str_match_arms,)*
                     Self::_Custom(crate::PrivOwnedStr(s)) => ::std::borrow::Cow::Borrowed(s),
                 }
+            }
+        }
+
+        // Order by the string form, like `PartialOrdAsRefStr` / `OrdAsRefStr` do for the other
+        // string enums (a derived `Ord` would follow the declaration order of the variants).
+        #[allow(deprecated)]
+        impl ::std::cmp::PartialOrd for #ident {
+            fn partial_cmp(&self, other: &Self) -> ::std::option::Option<::std::cmp::Ordering> {
+                ::std::option::Option::Some(::std::cmp::Ord::cmp(self, other))
+            }
+        }
+
+        #[allow(deprecated)]
+        impl ::std::cmp::Ord for #ident {
+            fn cmp(&self, other: &Self) -> ::std::cmp::Ordering {
+                ::std::cmp::Ord::cmp(&*self.to_cow_str(), &*other.to_cow_str())
             }
         }
 
